@@ -11,7 +11,9 @@ use std::collections::HashMap;
 // H5: fixed-hasher map under the guard so that drain order is reproducible
 #[cfg(anytls_verif)]
 use ::anytls_simnet::det::HashMap;
+use std::pin::Pin;
 use std::sync::Arc;
+use std::task::{Context, Poll, Waker};
 use tokio::io::{AsyncRead, AsyncReadExt, AsyncWrite, AsyncWriteExt};
 use tokio::sync::{Notify, RwLock, mpsc};
 use tokio::time::{self, Duration, Instant, MissedTickBehavior};
@@ -40,6 +42,55 @@ struct HeartbeatState {
 
 /// Session manages multiple streams over a single TLS connection
 type StreamDataReceiver = mpsc::UnboundedReceiver<(u32, Bytes)>;
+
+type ParkedWriter = Arc<std::sync::Mutex<Option<Waker>>>;
+
+/// Transport writer that fails pending and later writes once the session is closed.
+/// A write parked behind a peer that stopped reading would otherwise keep the writer lock
+/// for ever, and `close()` could neither return nor shut the transport down.
+struct SessionWriter {
+    inner: Box<dyn AsyncWrite + Send + Unpin>,
+    closed: Arc<std::sync::atomic::AtomicBool>,
+    parked: ParkedWriter,
+}
+
+impl SessionWriter {
+    fn check_open(&self, cx: &mut Context<'_>) -> std::io::Result<()> {
+        // Register first, then look at the flag: close() sets the flag before it takes the waker.
+        *self.parked.lock().unwrap() = Some(cx.waker().clone());
+        if self.closed.load(std::sync::atomic::Ordering::Relaxed) {
+            return Err(std::io::Error::new(
+                std::io::ErrorKind::BrokenPipe,
+                "session closed",
+            ));
+        }
+        Ok(())
+    }
+}
+
+impl AsyncWrite for SessionWriter {
+    fn poll_write(
+        mut self: Pin<&mut Self>,
+        cx: &mut Context<'_>,
+        buf: &[u8],
+    ) -> Poll<std::io::Result<usize>> {
+        if let Err(e) = self.check_open(cx) {
+            return Poll::Ready(Err(e));
+        }
+        Pin::new(&mut self.inner).poll_write(cx, buf)
+    }
+
+    fn poll_flush(mut self: Pin<&mut Self>, cx: &mut Context<'_>) -> Poll<std::io::Result<()>> {
+        if let Err(e) = self.check_open(cx) {
+            return Poll::Ready(Err(e));
+        }
+        Pin::new(&mut self.inner).poll_flush(cx)
+    }
+
+    fn poll_shutdown(mut self: Pin<&mut Self>, cx: &mut Context<'_>) -> Poll<std::io::Result<()>> {
+        Pin::new(&mut self.inner).poll_shutdown(cx)
+    }
+}
 
 pub struct Session {
     id: u64,
@@ -89,6 +140,7 @@ pub struct Session {
     // Heartbeat configuration (client side)
     heartbeat: Option<Arc<HeartbeatState>>,
     close_notify: Arc<Notify>,
+    write_parked: ParkedWriter,
 }
 
 impl Session {
@@ -132,6 +184,14 @@ impl Session {
             })
         });
 
+        let is_closed = Arc::new(std::sync::atomic::AtomicBool::new(false));
+        let write_parked: ParkedWriter = Arc::new(std::sync::Mutex::new(None));
+        let writer = SessionWriter {
+            inner: Box::new(writer),
+            closed: Arc::clone(&is_closed),
+            parked: Arc::clone(&write_parked),
+        };
+
         Self {
             id,
             reader: Arc::new(tokio::sync::Mutex::new(Box::new(reader))),
@@ -141,7 +201,7 @@ impl Session {
             stream_data_tx,
             stream_data_rx: Arc::new(tokio::sync::Mutex::new(Some(stream_data_rx))),
             stream_receive_tx: Arc::new(RwLock::new(HashMap::new())),
-            is_closed: Arc::new(std::sync::atomic::AtomicBool::new(false)),
+            is_closed,
             padding: Arc::new(RwLock::new(padding)),
             is_client: true,
             send_padding: true,
@@ -154,6 +214,7 @@ impl Session {
             server_settings: None,
             heartbeat: heartbeat_state,
             close_notify: Arc::new(Notify::new()),
+            write_parked,
         }
     }
 
@@ -166,6 +227,14 @@ impl Session {
         let (stream_data_tx, stream_data_rx) = mpsc::unbounded_channel();
         let id = SESSION_COUNTER.fetch_add(1, std::sync::atomic::Ordering::Relaxed);
 
+        let is_closed = Arc::new(std::sync::atomic::AtomicBool::new(false));
+        let write_parked: ParkedWriter = Arc::new(std::sync::Mutex::new(None));
+        let writer = SessionWriter {
+            inner: Box::new(writer),
+            closed: Arc::clone(&is_closed),
+            parked: Arc::clone(&write_parked),
+        };
+
         Self {
             id,
             reader: Arc::new(tokio::sync::Mutex::new(Box::new(reader))),
@@ -175,7 +244,7 @@ impl Session {
             stream_data_tx,
             stream_data_rx: Arc::new(tokio::sync::Mutex::new(Some(stream_data_rx))),
             stream_receive_tx: Arc::new(RwLock::new(HashMap::new())),
-            is_closed: Arc::new(std::sync::atomic::AtomicBool::new(false)),
+            is_closed,
             padding: Arc::new(RwLock::new(padding)),
             is_client: false,
             send_padding: false,
@@ -188,6 +257,7 @@ impl Session {
             server_settings: None,
             heartbeat: None,
             close_notify: Arc::new(Notify::new()),
+            write_parked,
         }
     }
 
@@ -225,6 +295,10 @@ impl Session {
             return Ok(());
         }
         self.close_notify.notify_waiters();
+        // Fail a write that is parked in the transport, so that the writer lock below can be had.
+        if let Some(waker) = self.write_parked.lock().unwrap().take() {
+            waker.wake();
+        }
         vp!("close.after_flag");
 
         // Close stream data receiver so process_stream_data exits
